@@ -466,6 +466,10 @@ func (r *pxRun) instrs(st *pxState, fr *pxFrame, b *ssa.BasicBlock, from int, do
 			r.store(st, fr, r.val(st, fr, x.Addr), r.val(st, fr, x.Val), in)
 		case *ssa.MapUpdate:
 			m := r.val(st, fr, x.Map)
+			if m.Op == "make" && isMapType(m.Typ) {
+				st.mapSet(m, r.val(st, fr, x.Key), r.val(st, fr, x.Value))
+				continue
+			}
 			st.emit(Ev{Kind: "mapupdate", In: in, Within: fr.fn, Recv: m, Args: []*T{r.val(st, fr, x.Key), r.val(st, fr, x.Value)}, Depth: fr.depth})
 		case *ssa.RunDefers:
 		case *ssa.Defer:
@@ -691,6 +695,14 @@ func (r *pxRun) eval(st *pxState, fr *pxFrame, v ssa.Value) *T {
 		return indexTerm(r.val(st, fr, x.X), r.val(st, fr, x.Index), x.Type())
 	case *ssa.Lookup:
 		m, k := r.val(st, fr, x.X), r.val(st, fr, x.Index)
+		if m.Op == "make" && isMapType(m.Typ) {
+			if v, ok := st.mapGet(m, k); ok {
+				if x.CommaOk {
+					return &T{Op: "tuple", A: []*T{v, cBool(true)}, Typ: x.Type()}
+				}
+				return v
+			}
+		}
 		val := &T{Op: "lookup", A: []*T{m, k}, Typ: x.Type()}
 		if x.CommaOk {
 			tt := x.Type().(*types.Tuple)
@@ -804,10 +816,31 @@ func (r *pxRun) eval(st *pxState, fr *pxFrame, v ssa.Value) *T {
 		return t
 	case *ssa.Range:
 		*st.inst++
-		return &T{Op: "range", A: []*T{r.val(st, fr, x.X)}, Inst: *st.inst, Typ: x.Type()}
+		over := r.val(st, fr, x.X)
+		rt := &T{Op: "range", A: []*T{over}, Inst: *st.inst, Typ: x.Type()}
+		if over.Op == "make" && isMapType(over.Typ) {
+			// a path-local map: iterate the entries it has now (in insertion order, as a canonical order)
+			rt.HasEl = true
+			rt.Elems = st.mapEntries(over)
+		}
+		return rt
 	case *ssa.Next:
 		*st.inst++
 		it := r.val(st, fr, x.Iter)
+		if it.Op == "range" && it.HasEl {
+			key := "r" + strconv.Itoa(it.Inst) + "#i"
+			i := 0
+			if v, ok := st.mem[key]; ok {
+				n, _ := v.intVal()
+				i = int(n)
+			}
+			st.mem[key] = cInt(int64(i + 1))
+			tt := x.Type().(*types.Tuple)
+			if 2*i+1 < len(it.Elems) {
+				return &T{Op: "tuple", A: []*T{cBool(true), it.Elems[2*i], it.Elems[2*i+1]}, Typ: x.Type()}
+			}
+			return &T{Op: "tuple", A: []*T{cBool(false), zeroTerm(tt.At(1).Type()), zeroTerm(tt.At(2).Type())}, Typ: x.Type()}
+		}
 		n := &T{Op: "next", A: []*T{it}, Inst: *st.inst, Typ: x.Type()}
 		tt := x.Type().(*types.Tuple)
 		tu := &T{Op: "tuple", Typ: x.Type()}
@@ -1131,6 +1164,9 @@ func (r *pxRun) call(st *pxState, fr *pxFrame, x *ssa.Call, k func(*pxState, *px
 			if a.Nil {
 				return bind(cInt(0))
 			}
+			if a.Op == "make" && isMapType(a.Typ) {
+				return bind(cInt(int64(len(st.mapEntries(a)) / 2)))
+			}
 			return bind(&T{Op: "len", A: []*T{a}, Typ: resTyp})
 		case "append":
 			base := args[0]
@@ -1145,7 +1181,14 @@ func (r *pxRun) call(st *pxState, fr *pxFrame, x *ssa.Call, k func(*pxState, *px
 			return bind(&T{Op: "append", A: args, Typ: resTyp})
 		case "cap":
 			return bind(&T{Op: "call", Aux: "cap", A: args, Typ: resTyp})
-		case "copy", "delete", "clear":
+		case "delete":
+			if args[0].Op == "make" && isMapType(args[0].Typ) {
+				st.mapDel(args[0], args[1])
+				return bind(&T{Op: "tuple", Typ: resTyp})
+			}
+			st.emit(Ev{Kind: "call", Name: "builtin.delete", In: x, Within: fr.fn, Args: args, Depth: fr.depth})
+			return bind(&T{Op: "unknown", Aux: "delete", Typ: resTyp})
+		case "copy", "clear":
 			st.emit(Ev{Kind: "call", Name: "builtin." + bi.Name(), In: x, Within: fr.fn, Args: args, Depth: fr.depth})
 			return bind(&T{Op: "unknown", Aux: bi.Name(), Typ: resTyp})
 		case "min", "max":
@@ -1420,7 +1463,14 @@ func termTemplate(t *T) []pseg {
 						if len(verbs) == len(t.A)-1 {
 							for i, vb := range verbs {
 								add(pseg{Lit: lits[i]})
-								add(pseg{Verb: vb, Val: t.A[i+1]})
+								arg := t.A[i+1]
+								if (vb == "s" || vb == "v") && arg.Typ != nil {
+									if b, ok := arg.Typ.Underlying().(*types.Basic); ok && b.Info()&types.IsString != 0 && (arg.Op == "call" || arg.Op == "binop" || arg.isConst()) {
+										walk(arg) // %s of a string that is itself built: flatten
+										continue
+									}
+								}
+								add(pseg{Verb: vb, Val: arg})
 							}
 							add(pseg{Lit: lits[len(lits)-1]})
 							return
@@ -1673,4 +1723,74 @@ func (p *PXPath) deep(t *T, depth int) string {
 		}
 	}
 	return t.String()
+}
+
+func isMapType(t types.Type) bool {
+	if t == nil {
+		return false
+	}
+	_, ok := t.Underlying().(*types.Map)
+	return ok
+}
+
+// path-local maps: entries kept in insertion order under "m<inst>#<i>k" / "m<inst>#<i>v".
+func (s *pxState) mapEntries(m *T) []*T {
+	var out []*T
+	pre := "m" + strconv.Itoa(m.Inst) + "#"
+	n := 0
+	if v, ok := s.mem[pre+"n"]; ok {
+		x, _ := v.intVal()
+		n = int(x)
+	}
+	for i := 0; i < n; i++ {
+		k, ok := s.mem[pre+strconv.Itoa(i)+"k"]
+		if !ok {
+			continue
+		}
+		out = append(out, k, s.mem[pre+strconv.Itoa(i)+"v"])
+	}
+	return out
+}
+
+func (s *pxState) mapSet(m, k, v *T) {
+	pre := "m" + strconv.Itoa(m.Inst) + "#"
+	n := 0
+	if x, ok := s.mem[pre+"n"]; ok {
+		y, _ := x.intVal()
+		n = int(y)
+	}
+	for i := 0; i < n; i++ {
+		if e, ok := s.mem[pre+strconv.Itoa(i)+"k"]; ok && e.String() == k.String() {
+			s.mem[pre+strconv.Itoa(i)+"v"] = v
+			return
+		}
+	}
+	s.mem[pre+strconv.Itoa(n)+"k"] = k
+	s.mem[pre+strconv.Itoa(n)+"v"] = v
+	s.mem[pre+"n"] = cInt(int64(n + 1))
+}
+
+func (s *pxState) mapGet(m, k *T) (*T, bool) {
+	es := s.mapEntries(m)
+	for i := 0; i+1 < len(es); i += 2 {
+		if es[i].String() == k.String() {
+			return es[i+1], true
+		}
+	}
+	return nil, false
+}
+
+func (s *pxState) mapDel(m, k *T) {
+	pre := "m" + strconv.Itoa(m.Inst) + "#"
+	n := 0
+	if x, ok := s.mem[pre+"n"]; ok {
+		y, _ := x.intVal()
+		n = int(y)
+	}
+	for i := 0; i < n; i++ {
+		if e, ok := s.mem[pre+strconv.Itoa(i)+"k"]; ok && e.String() == k.String() {
+			delete(s.mem, pre+strconv.Itoa(i)+"k")
+			delete(s.mem, pre+strconv.Itoa(i)+"v")
+		}
+	}
 }
